@@ -90,9 +90,12 @@ def run(ck):
     bl = prog.fn(FP + "::build_layers")
     bp = prog.fn(FP + "::build_proof")
     rs = prog.fn(FP + "::reset")
-    sr = prog.fn(FP + "::set_remainder")
-    for f in (bl, bp, rs, sr):
+    for f in (bl, bp, rs):
         ck.saw(f)
+    # private helpers of build_layers (build_layer, set_remainder, however they are cut) are read in place
+    bli = prog.inl(bl)
+    for n in getattr(bli, "inlined", ()) or ():
+        ck.analysed["functions"].add(n)
     # T1: build_proof leaves the prover clean
     cl = clears(prog, bp)
     ck.ob("T", "build_proof:clears-layers", "layers" in cl,
@@ -101,19 +104,17 @@ def run(ck):
           "FriProver::build_proof empties the remainder on every return path", loc=bp.loc())
     ck.ob("T", "reset:clears-both", clears(prog, rs) == {"layers", "remainder_poly"},
           "FriProver::reset empties both the layers and the remainder", loc=rs.loc())
-    # T2: build_layers requires clean
-    pg = panic_guard(bl, "layers", want_empty=True)
-    work = [(b, T) for b, t in bl.calls() if (callee_name(t) or "").endswith(("FriProver::build_layer", "FriProver::set_remainder"))]
-    ok = bool(pg) and bool(work) and must_between(bl, None, pg, work)[0]
+    # T2: build_layers requires clean: the refusal precedes every commitment sent and every store of the remainder
+    stores = [(b, S) for b, i, s in bli.assigns()
+              if any(isinstance(e, dict) and e.get("n") == "remainder_poly" for e in s["lhs"].get("p", []))]
+    pg = panic_guard(bli, "layers", want_empty=True)
+    work = [(b, T) for b, t in bli.calls() if (callee_name(t) or "").endswith("commit_fri_layer")] + stores
+    ok = bool(pg) and bool(work) and must_between(bli, None, pg, work)[0]
     ck.ob("T", "build_layers:requires-clean", ok, "FriProver::build_layers refuses to start unless no layers are stored", loc=bl.loc())
     # T3: build_layers makes the prover dirty
-    srs = [(b, T) for b, t in bl.calls() if (callee_name(t) or "").endswith("FriProver::set_remainder")]
-    ok = bool(srs) and must_between(bl, None, srs, returns(bl))[0]
-    stores = [(b, S) for b, i, s in sr.assigns()
-              if any(isinstance(e, dict) and e.get("n") == "remainder_poly" for e in s["lhs"].get("p", []))]
-    ok2 = bool(stores) and must_between(sr, None, stores, returns(sr))[0]
-    ck.ob("T", "build_layers:stores-remainder", ok and ok2,
-          "every path of build_layers stores a remainder (set_remainder is must-pass and assigns remainder_poly)", loc=bl.loc())
+    ok = bool(stores) and must_between(bli, None, stores, returns(bli))[0]
+    ck.ob("T", "build_layers:stores-remainder", ok,
+          "every path of build_layers (private helpers read in place) assigns remainder_poly before it returns", loc=bl.loc())
     # T4: build_proof requires dirty
     pg = panic_guard(bp, "remainder_poly", want_empty=False)
     ck.ob("T", "build_proof:requires-dirty", bool(pg) and must_between(bp, None, pg, returns(bp))[0],
@@ -121,7 +122,7 @@ def run(ck):
     remainder_exemption(ck, prog)
     layer_count_rule(ck, prog)
     agreement(ck, prog)
-    ck.control("FriProver::set_remainder does not clear the layers", "layers" not in clears(prog, sr))
+    ck.control("FriProver::build_layers does not clear the layers", "layers" not in clears(prog, bl))
 
 
 def remainder_exemption(ck, prog):
